@@ -228,6 +228,7 @@ pub fn worker_main<W: World>(args: &[String]) -> i32 {
 }
 
 struct Merged {
+    stalled: bool,
     done: u64,
     counters: BTreeMap<String, u64>,
     distinct: BTreeSet<u64>,
@@ -266,6 +267,7 @@ fn spawn_workers(prop: &str, tier: Tier, seed: u64, runs: u64, budget_s: f64, wo
         children.push((wi, wi as u64, count, spawn(wi as u64, count)));
     }
     let mut m = Merged {
+        stalled: false,
         done: 0, counters: BTreeMap::new(), distinct: BTreeSet::new(), distinct2: BTreeSet::new(),
         samples: vec![], notes: BTreeSet::new(), hashes: BTreeMap::new(), violations: vec![],
         heap: BTreeMap::new(), worker_failures: vec![],
@@ -277,6 +279,10 @@ fn spawn_workers(prop: &str, tier: Tier, seed: u64, runs: u64, budget_s: f64, wo
         let last = text.lines().rev().find(|l| l.starts_with('{'));
         let v: Value = match last.and_then(|l| serde_json::from_str(l).ok()) {
             Some(v) if out.status.success() => v,
+            _ if out.status.code() == Some(4) => {
+                m.stalled = true;
+                continue;
+            }
             _ => {
                 m.worker_failures.push(format!("worker {} status {:?}", wi, out.status));
                 continue;
@@ -368,6 +374,24 @@ pub struct Extra {
 /// Parent: self-test determinism, run the batch, replay known findings, write evidence.
 /// Returns the process exit code.
 pub fn parent_main<W: World>(tier: Tier, plan: Plan, extra: Extra) -> i32 {
+    match parent_once::<W>(tier, &plan, &extra) {
+        Some(code) => code,
+        None => {
+            // a worker stalled: once more, with scheduling points at call boundaries only
+            println!("note: a simulated client blocked on a primitive the simulator does not own while another client was parked inside a call; repeating the whole batch at call granularity (no scheduling points inside a call)");
+            std::env::set_var("SIM_CALL_GRANULARITY", "1");
+            match parent_once::<W>(tier, &plan, &extra) {
+                Some(code) => code,
+                None => {
+                    println!("HARNESS-ERROR stalled even at call granularity");
+                    2
+                }
+            }
+        }
+    }
+}
+
+fn parent_once<W: World>(tier: Tier, plan: &Plan, extra: &Extra) -> Option<i32> {
     let t0 = Instant::now();
     let seed = env_seed();
     let prop = W::PROP;
@@ -379,9 +403,12 @@ pub fn parent_main<W: World>(tier: Tier, plan: Plan, extra: Extra) -> i32 {
     if plan.selftest_runs > 0 {
         let a = spawn_workers(prop, tier, seed, plan.selftest_runs, plan.budget_s, 1, true);
         let b = spawn_workers(prop, tier, seed, plan.selftest_runs, plan.budget_s, plan.workers.max(2), true);
+        if a.stalled || b.stalled {
+            return None;
+        }
         if !a.worker_failures.is_empty() || !b.worker_failures.is_empty() {
             println!("HARNESS-ERROR worker failed during self-test: {:?} {:?}", a.worker_failures, b.worker_failures);
-            return 2;
+            return Some(2);
         }
         for (i, h) in &a.hashes {
             if let Some(h2) = b.hashes.get(i) {
@@ -393,16 +420,19 @@ pub fn parent_main<W: World>(tier: Tier, plan: Plan, extra: Extra) -> i32 {
             }
         }
         if divergent > 0 {
-            return 2;
+            return Some(2);
         }
         println!("self-test: {} runs repeated in separate processes (1 and {} workers): identical event-log hashes", selftested, plan.workers.max(2));
     }
 
     // 2. the batch
     let m = spawn_workers(prop, tier, seed, plan.runs, plan.budget_s, plan.workers, false);
+    if m.stalled {
+        return None;
+    }
     if !m.worker_failures.is_empty() {
         println!("HARNESS-ERROR worker failed: {:?}", m.worker_failures);
-        return 2;
+        return Some(2);
     }
 
     // 3. known findings: replay each listed world
@@ -472,6 +502,7 @@ pub fn parent_main<W: World>(tier: Tier, plan: Plan, extra: Extra) -> i32 {
     cov.insert("evaluations".into(), json!(m.done + extra.extra_evaluations));
     cov.insert("distinct_nontrivial".into(), json!(m.distinct.len()));
     cov.insert("rule".into(), json!(extra.rule));
+    cov.insert("scheduling_granularity".into(), json!(if std::env::var("SIM_CALL_GRANULARITY").is_ok() { "call boundaries only (fallback after a stall)" } else { "call boundaries and sweep events" }));
     cov.insert("samples".into(), Value::Array(m.samples.clone()));
     cov.insert("simulated_runs".into(), json!(m.done));
     cov.insert("runs_per_hour".into(), json!((m.done as f64 / wall.max(1e-9) * 3600.0) as u64));
@@ -483,7 +514,7 @@ pub fn parent_main<W: World>(tier: Tier, plan: Plan, extra: Extra) -> i32 {
     cov.insert("notes".into(), json!(m.notes.iter().collect::<Vec<_>>()));
     let zero_probes: Vec<&String> = m.counters.iter().filter(|(k, n)| k.starts_with("probe_") && **n == 0).map(|(k, _)| k).collect();
     cov.insert("probes_stuck_at_zero".into(), json!(zero_probes));
-    for (k, v) in extra.coverage {
+    for (k, v) in extra.coverage.clone() {
         cov.insert(k, v);
     }
     let ev = json!({
@@ -494,7 +525,7 @@ pub fn parent_main<W: World>(tier: Tier, plan: Plan, extra: Extra) -> i32 {
     let evp = format!("{}/evidence/{}.json", verif_dir(), prop);
     if let Err(e) = std::fs::write(&evp, serde_json::to_string_pretty(&ev).unwrap()) {
         println!("HARNESS-ERROR cannot write evidence {}: {}", evp, e);
-        return 2;
+        return Some(2);
     }
     println!("{}: {} runs, {} distinct states, {} new violations, {} known-finding lines, {:.1}s; evidence {}",
         prop, m.done, m.distinct.len(), new_violations, known_lines, wall, evp);
@@ -505,12 +536,12 @@ pub fn parent_main<W: World>(tier: Tier, plan: Plan, extra: Extra) -> i32 {
         }
     }
     if harness_errors > 0 {
-        return 2;
+        return Some(2);
     }
     if new_violations > 0 {
-        1
+        Some(1)
     } else {
-        0
+        Some(0)
     }
 }
 
